@@ -44,7 +44,10 @@ use futures::{
 use hickory_resolver::TokioResolver;
 use multiaddr::Multiaddr;
 use socket2::{Domain, Socket, Type};
+#[cfg(not(litep2p_verif))]
 use tokio::net::TcpStream;
+#[cfg(litep2p_verif)]
+use crate::verif::net::TcpStream;
 
 use std::{
     collections::HashMap,
@@ -173,7 +176,41 @@ impl TcpTransport {
         }));
     }
 
+    /// Dial remote peer over the simulated network.
+    #[cfg(litep2p_verif)]
+    async fn dial_peer(
+        address: Multiaddr,
+        dial_addresses: DialAddresses,
+        connection_open_timeout: Duration,
+        _nodelay: bool,
+        resolver: Arc<TokioResolver>,
+    ) -> Result<(Multiaddr, TcpStream), DialError> {
+        let (socket_address, _) = TcpAddress::multiaddr_to_socket_address(&address)?;
+
+        let remote_address =
+            match tokio::time::timeout(connection_open_timeout, socket_address.lookup_ip(resolver))
+                .await
+            {
+                Err(_) => return Err(DialError::Timeout),
+                Ok(Err(error)) => return Err(error.into()),
+                Ok(Ok(address)) => address,
+            };
+        let local = dial_addresses.local_dial_address(&remote_address.ip()).ok().flatten();
+
+        match tokio::time::timeout(
+            connection_open_timeout,
+            TcpStream::connect_from(local, remote_address),
+        )
+        .await
+        {
+            Err(_) => Err(DialError::Timeout),
+            Ok(Err(error)) => Err(error.into()),
+            Ok(Ok(stream)) => Ok((address, stream)),
+        }
+    }
+
     /// Dial remote peer
+    #[cfg(not(litep2p_verif))]
     async fn dial_peer(
         address: Multiaddr,
         dial_addresses: DialAddresses,
